@@ -543,6 +543,12 @@ class Verdict:
             print("VIOLATION property=%s replay=%s" % (self.pid, path))
         if len(self.violations) > 5:
             log("[violation] ... and %d more" % (len(self.violations) - 5))
+            classes = {}
+            for sig, _, _ in self.violations:
+                k = json.dumps(sig, sort_keys=True, default=str)
+                classes[k] = classes.get(k, 0) + 1
+            for k, n in sorted(classes.items(), key=lambda x: -x[1])[:25]:
+                log("[violation-class] %5d x %s" % (n, k))
         return 1
 
 
